@@ -14,6 +14,8 @@ from gen import pick
 import polcase
 from vakt.guard import Guard
 from vakt.storage.memory import MemoryStorage
+from vakt.storage.observable import ObservableMutationStorage
+from vakt.cache import EnfoldCache
 from vakt.exceptions import InvalidPatternError
 
 MODULE = 'Props.C02'
@@ -129,6 +131,23 @@ def run(ctx):
             out.count('fault:storage')
             if a is not False:
                 fails.append(('storage fault %r (%s)' % (mode, exc.__name__), a, 'must be False', 'storage-fault'))
+            # the same fault behind the storage wrappers (both the cache store and the backend of the enfolding cache
+            # fail in the same way, so no retrieval path succeeds)
+            for wname in ('enfold', 'observable'):
+                try:
+                    if wname == 'enfold':
+                        ws = EnfoldCache(FaultStorage(objs, mode, exc), cache=FaultStorage(objs, mode, exc), populate=False)
+                    else:
+                        ws = ObservableMutationStorage(FaultStorage(objs, mode, exc))
+                except Exception:
+                    out.count('wrapper-unconstructible:' + wname)
+                    continue
+                aw = ask(ws, polcase.make_checker(k), inq)
+                out.evaluations += 1
+                out.count('fault:storage-behind-' + wname)
+                if aw is not False:
+                    fails.append(('storage fault %r (%s) behind the %s wrapper' % (mode, exc.__name__, wname), aw,
+                                  'must be False', 'storage-fault-' + wname))
             try:
                 if mode == 'raise':
                     lines.append(polcase.decide_line(case, objs, inq, ans='AR'))
